@@ -7,7 +7,7 @@ from wire import mk_fmt, cells
 from props.common import chunks_for, reply_fmt, guarded, canon_cells, PALETTE
 
 PROP = "C14"
-MODULES = ["Curtsies.Properties.C14"]
+MODULES = ["Curtsies.Properties.C14", "Curtsies.Properties.C14Sound"]
 RULE = ("exhaustive: every single attribute (8 fg, 8 bg, 6 styles True/False) in every spelling (positional lower/UPPER "
         "case, fg=/bg= name, fg=/bg= number, style=, keyword True/False, each of the fmtfuncs incl. on_dark and plain) and "
         "every pair of attributes of different kinds in every pair of spellings (3 colours per kind quick, 8 thorough) in "
